@@ -1,11 +1,15 @@
 import Qryn.Read.Cursor
 import Qryn.Read.Assembly
+import Qryn.Prom.Select
 /-! Line protocol for C17.
     `c17cursor <samples> <ops>` — samples `ts:v,ts:v,…` (`-` = empty slice), ops `n` (Next), `a` (At),
     `s<t>` (Seek t) comma separated; answer: outputs in call order, `T`/`F`/`ts:v`/`!` (fault), comma separated.
     `c17cursorw …` — same over the code as it was written (pinned tree).
     `c17assemble <rows>` — rows `fp:val:ts,…` (`-` = none) in scan order; answer: the series in loop order,
-    `fp=ts:v|ts:v;fp=…` (`-` = no series, `!` = fault). -/
+    `fp=ts:v|ts:v;fp=…` (`-` = no series, `!` = fault).
+    `c17fpsql <table> <hex fromDate> <type> <matchers>` — matchers `eq|ne|re|nre:<hex name>:<hex value>` comma
+    separated; answer: hex of the text of the `fp_sel` sub-query, or `unsupported`.
+    `c17scan <fromNs> <toNs>` — hex of the two bounds of the raw-sample scan as rendered. -/
 namespace Driver.C17
 open Qryn.Read.Cursor
 
@@ -59,7 +63,30 @@ def assembleOp (rows : String) : Option String := do
   | none => some "!"
   | some ss => some (if ss.isEmpty then "-" else ";".intercalate (ss.map showSeries))
 
+def parseMatcher (s : String) : Option Qryn.Prom.Matcher :=
+  match s.splitOn ":" with
+  | [t, n, v] =>
+    let ty : Option Qryn.Prom.MatchType :=
+      if t = "eq" then some .eq else if t = "ne" then some .ne else if t = "re" then some .re
+      else if t = "nre" then some .nre else none
+    match ty, Qryn.ofHex n, Qryn.ofHex v with
+    | some ty, some n, some v => some ⟨n, ty, v⟩
+    | _, _, _ => none
+  | _ => none
+
+def fpsql (table date tp ms : String) : Option String := do
+  let d ← Qryn.ofHex date
+  let tp ← tp.toInt?
+  let ms ← allSome ((parseList ms).map parseMatcher)
+  match Qryn.Prom.fingerprintsQuery table d tp ms with
+  | none => some "unsupported"
+  | some q => some (Qryn.hexOut q.render)
+
 def handle : List String → Option String
+  | ["c17fpsql", table, date, tp, ms] => fpsql table date tp ms
+  | ["c17scan", a, b] => match a.toInt?, b.toInt? with
+    | some a, some b => some (Qryn.hexOut (Qryn.Prom.renderScan a b))
+    | _, _ => none
   | ["c17assemble", rows] => assembleOp rows
   | ["c17cursor", ss, ops] => cursor run ss ops
   | ["c17cursorw", ss, ops] => cursor runW ss ops
